@@ -162,6 +162,8 @@ impl HttpSignatureHelper for http::Signature {
         if self.version == Version::Any {
             keys.push(HttpIndexKey { http_version_key: Version::V10 });
             keys.push(HttpIndexKey { http_version_key: Version::V11 });
+            keys.push(HttpIndexKey { http_version_key: Version::V20 });
+            keys.push(HttpIndexKey { http_version_key: Version::V30 });
         } else {
             keys.push(HttpIndexKey { http_version_key: self.version });
         }
